@@ -6,7 +6,7 @@ from pv.entail import entails
 from pv.expr import Ctx, guard_facts, key_contains
 from pv.facts import AnalysisBroken, strip_targs
 from pv.formula import Formula, exp_args
-from pv.loops import covers, enclosing_loops, is_element, loop_shape, sum_over
+from pv.loops import covers, enclosing_loops, is_element, loop_shape, sum_over, no_early_exit
 from checks import lehmann as lh
 from checks.lehmann import fld, THIS
 
@@ -19,7 +19,7 @@ def full_index_loop(f, ctx, node, bound_keys):
     L = enclosing_loops(f, node)
     for Lp in L:
         shp = loop_shape(f, ctx, Lp)
-        if shp["kind"] == "index" and shp["start"] == ("lit", 0) and shp["rel"] == "<" and shp["bound"] in bound_keys and not shp["exits"]:
+        if shp["kind"] == "index" and shp["start"] == ("lit", 0) and shp["rel"] == "<" and shp["bound"] in bound_keys and no_early_exit(shp):
             return shp
     return None
 
@@ -326,13 +326,13 @@ def body(chk, db, cfgname):
             A = acc[0]
             L = enclosing_loops(f, A)
             shapes = [loop_shape(f, ctx, x) for x in L]
-            outer = [s for s in shapes if s["kind"] == "index" and s["bound"] in wsize and s["start"] == ("lit", 0) and not s["exits"]]
+            outer = [s for s in shapes if s["kind"] == "index" and s["bound"] in wsize and s["start"] == ("lit", 0) and no_early_exit(s)]
             probs = []
             if len(outer) != 1:
                 unk(f, "the accumulation is not inside a full index loop over the eigenstates of the block")
             s_ = outer[0]["var"]
             vec = ("mcall", "Pomerol::HamiltonianPart::getEigenState", hp, s_)
-            inner = [s for s in shapes if s is not outer[0] and s["kind"] == "index" and s["start"] == ("lit", 0) and not s["exits"] and
+            inner = [s for s in shapes if s is not outer[0] and s["kind"] == "index" and s["start"] == ("lit", 0) and no_early_exit(s) and
                      s["bound"][0] == "mcall" and s["bound"][1].endswith("::size") and s["bound"][2] == vec]
             if len(inner) != 1:
                 inner_any = [s for s in shapes if s is not outer[0] and s["kind"] == "index"]
